@@ -61,6 +61,8 @@ def same_submissions(facts, par, ref, res):
         if ga != gb:
             res.violation("C03.a.same-submissions", tbf.rel(facts.path_of(ps.fn)), ps.fn["qname"], "stage-guard", ps.fn["l"][1],
                           "stage guard %s differs from the reference's %s" % (ga, gb))
+        import cursor
+        cursor.compare(facts, res, "C03.a.same-walk", rs.fn, ps.fn, "walk over the groups of stage %s" % stage)
         ma = sorted(m["descr"] for m in ps.mapper_calls)
         mb = sorted(m["descr"] for m in rs.mapper_calls)
         if ma != mb:
@@ -183,6 +185,7 @@ def run(res, tier):
     facts = tbf.scan("core")
     res.units.append("umbrella TU 'core' (%d headers, %d function patterns)" % (len(facts.headers), len(facts.functions)))
     res.rule("C03.a same submissions: per stage the set of wrapper applications (method, origin of every argument), level interval, guard and mapper calls equal the sequential reference's")
+    res.rule("C03.a same walk: per stage the control skeleton (loop conditions, branch conditions, which cursor each branch advances, where operators are submitted) equals the sequential reference's")
     res.rule("C03.b deps cover effects: every (group, memory block) a task's wrapper calls write has an inout/commute dependency, every read of a block some task writes has at least `in`")
     res.rule("C03.c capture lifetime: a deferred task touches only firstprivate copies, its own locals, `this` outside lambdas and reference parameters of the stage function")
     res.rule("C03.d per-worker kernel: wrapper calls inside tasks use K[worker-id()] evaluated in the body; K grown to the worker count before submission")
